@@ -845,6 +845,10 @@ def check_C18(world, hist, pred):
     events = hist["events"]
     ev_by_seq = {e["seq"]: e for e in events}
 
+    # the application's own stream handler (pre_handler == 2) legitimately prints log records unless
+    # behave was told to clear foreign handlers while it captures logging
+    app_stream_handler_active = cfg.get("pre_handler") == 2 and not (cfg.get("logging_clear_handlers") and cap["log"])
+
     def in_capture_window(e):
         return e["kind"] == "step" or (e["kind"] == "hook" and e["name"].endswith("_step")) or e["depth"] > 0
 
@@ -862,6 +866,8 @@ def check_C18(world, hist, pred):
                 ms = [m for m in hist["markers"] if m["m"] in text]
                 if ms and all(m["stream"] == "log" and not cap["log"] for m in ms):
                     continue    # logging with log capture off passes straight through its handlers
+                if ms and all(m["stream"] == "log" for m in ms) and app_stream_handler_active:
+                    continue    # the application's own stream handler was not asked to be cleared
                 if ms and all(m["stream"] == "log" for m in ms) and cap["log"]:
                     stream = "log->" + stream
                 out.append(V("C18", "leak-to-real-stream", "%s:during-%s" % (stream, e["kind"] if e["kind"] == "step" else e["name"]),
@@ -907,6 +913,8 @@ def check_C18(world, hist, pred):
             continue
         if node["status"] == "passed":
             where = None
+            if m["stream"] == "log" and app_stream_handler_active:
+                continue
             if m["m"] in all_tty:
                 where = "tty"
             else:
